@@ -27,7 +27,7 @@ def status_table():
 
 
 def seeded_table():
-    rows = ["| id | file: what the change does | needs | first run of the property's check | now | caught by |", "|---|---|---|---|---|---|"]
+    rows = ["| id | what the change does | needs | first run of the property's check | now | caught by |", "|---|---|---|---|---|---|"]
     hist = {}
     hp = os.path.join(ROOT, "seeded", "FIRST_RUN.json")
     if os.path.exists(hp):
@@ -61,8 +61,8 @@ def seeded_table():
         ex = det.get("exit")
         n += 1
         n1 += 1 if ex == 1 else 0
-        rows.append(f"| {sid} | {', '.join(os.path.basename(x) for x in files)}: {str(what)[:230]} | {str(needs)[:160]} | {first} | exit {ex} | "
-                    f"{'; '.join(dict.fromkeys(by[:2]))} |")
+        clean = lambda t, n: (str(t)[:n] + ("…" if len(str(t)) > n else "")).replace("|", "/").replace("\n", " ")
+        rows.append(f"| {sid} | {clean(what, 200)} | {clean(needs, 130)} | {first} | exit {ex} | {'; '.join(dict.fromkeys(by[:2])).replace('|', '/')} |")
     rows.append(f"\n{n1} of {n} seeded changes end in `VIOLATION` (exit 1) with the current checks.")
     return "\n".join(rows)
 
